@@ -728,6 +728,11 @@ impl<'a> Gen<'a> {
 
     fn window_spec(&mut self, scope: &[Rel]) -> Win {
         let mut w = Win { partition: vec![], order: vec![], frame: None };
+        if !self.cfg.exec && self.cfg.numeric_frames && self.rng.chance(1, 10) {
+            // nothing but a frame (text level: without an ordering the frame's rows are not determined)
+            w.frame = Some((true, FrameBound::Preceding(2), Some(FrameBound::Following(1))));
+            return w;
+        }
         if self.rng.coin() {
             w.partition.push(self.col_of(scope, Some(K::I)).unwrap());
         }
@@ -944,6 +949,13 @@ impl<'a> Gen<'a> {
                     s.lock = Some(Lock { kind: *self.rng.pick(&[LockKind::Update, LockKind::Share]), of: vec![], nowait: if self.rng.coin() { Some(self.rng.coin()) } else { None } });
                 }
             }
+            Some(Dialect::Sqlite) => {
+                // SQLite has no locking clause: whatever form the builder is given, nothing is rendered
+                if self.rng.chance(1, 10) {
+                    let of = if self.rng.coin() { vec!["t1".to_string()] } else { vec![] };
+                    s.lock = Some(Lock { kind: *self.rng.pick(&[LockKind::Update, LockKind::Share]), of, nowait: if self.rng.coin() { Some(self.rng.coin()) } else { None } });
+                }
+            }
             Some(Dialect::Postgres) => {
                 if self.rng.chance(1, 10) && s.joins.is_empty() && matches!(s.from.first(), Some(From_::Table(..))) {
                     s.sample = Some((self.rng.coin(), 10.0, if self.rng.coin() { Some(1.0) } else { None }));
@@ -1139,8 +1151,15 @@ impl<'a> Gen<'a> {
                 }
                 q.distinct = Some(Distinct::Distinct);
                 if q.wheres.is_empty() {
-                    // SQLite's documented parsing ambiguity: INSERT .. SELECT .. ON CONFLICT needs a WHERE clause
-                    q.wheres.push(X::Bool(true));
+                    // SQLite's documented parsing ambiguity: INSERT .. SELECT .. ON CONFLICT needs something between
+                    // the FROM table and ON — a WHERE clause, or an ORDER BY / LIMIT (above every table's size)
+                    if self.rng.coin() {
+                        q.wheres.push(X::Bool(true));
+                    } else {
+                        let k0 = q.items[0].expr.clone();
+                        q.orders.push(Ord_ { expr: k0, dir: Dir::Asc, nulls_first: None });
+                        q.limit = Some(50 + self.rng.below(9) as u64);
+                    }
                 }
                 s.source = InsSource::Select(Box::new(q));
             }
